@@ -1,6 +1,8 @@
 package implements
 
 import (
+	"go/types"
+
 	"github.com/a14e/gogreement/src/annotations"
 )
 
@@ -156,6 +158,12 @@ func checkImplementation(
 
 // signaturesMatch checks if type method matches interface method signature
 func signaturesMatch(typeMethod TypeMethod, ifaceMethod InterfaceMethod) bool {
+	// With both signatures at hand, Go's own type identity decides (aliases, byte/uint8,
+	// any/interface{}, pointer depth, composite types); receivers are not part of it
+	if typeMethod.Sig != nil && ifaceMethod.Sig != nil {
+		return types.Identical(typeMethod.Sig, ifaceMethod.Sig)
+	}
+
 	// Check input count
 	if len(typeMethod.Inputs) != len(ifaceMethod.Inputs) {
 		return false
